@@ -27,7 +27,9 @@ let program_and_obs (c : Caseio.case) : prog * nat list =
   | "wna" ->
       (case_wna (n "D") (n "num") (n "sr") (n "sc") (n "mr") (n "mc") (n "pr") (n "pc") (n "cr") (n "cc"),
        obs_wna (n "D") (n "num") (n "cc"))
-  | "simstate" -> (case_simstate (n "D") (n "T") (n "ir") (n "calls"), obs_simstate (n "T") (n "ir") (n "calls"))
+  | "simstate" ->
+      let ops = List.map (fun t -> if t = "r" then SReset else SBuf) (words c "ops") in
+      (case_simstate (n "D") (n "T") (n "ir") ops, obs_simstate (n "T") (n "ir") ops)
   | "linsensor" ->
       let ms = List.map (fun t -> nat_of_int (int_of_string t)) (words c "ms") in
       (case_linsensor (n "D") (n "T") (n "ir") (n "sn") ms (n "rr") (n "rc") (n "calls") (n "num") (n "sr") (n "sc"),
@@ -56,11 +58,11 @@ let program_and_obs (c : Caseio.case) : prog * nat list =
       (case_ukfp (mb c "additive") lp (n "comps") (n "q") ls, ukfp_out (n "comps") ls)
   | "ukfc" ->
       let lp = lay c "p" 0 and lm = lay c "m" 0 and lq = lay c "q" 0 in
-      (case_ukfc (mb c "additive") lp (n "comps") (n "r") (mb c "valid") lm (n "ir") lq (n "compsq") (mb c "again"),
+      (case_ukfc (mb c "additive") lp (n "comps") (n "r") (mb c "valid") lm (n "ir") lq (n "compsq") (mb c "again") (mb c "online"),
        obs_ukfc lp (n "comps") (mb c "valid") lq (n "compsq") (mb c "again"))
   | "sukf" ->
       let lp = lay c "p" 0 and lq = lay c "q" 0 in
-      (case_sukf lp (n "comps") (n "msz") (n "sub") (n "r") (n "ir") lq (n "compsq") (mb c "again"),
+      (case_sukf (mb c "reduced") lp (n "comps") (n "msz") (n "sub") (n "r") (n "ir") lq (n "compsq") (mb c "again"),
        obs_sukf lp (n "comps") (n "msz") (n "sub") lq (n "compsq") (mb c "again"))
   | "resample" ->
       let lc = lay c "c" 0 and lr = lay c "r" 0 in
@@ -84,6 +86,18 @@ let () =
     (fun (c : Caseio.case) ->
       let p, o = program_and_obs c in
       Caseio.out_begin c.id;
+      let opclass (s : C14_model.string) =
+        (* the kind of precondition of the first failing item *)
+        let rec find = function
+          | [] -> "none"
+          | x :: r -> if x.site = s && not (ok x.what) then
+                        (match x.what with Mul _ -> "mul" | Same _ -> "same" | Blk _ -> "blk" | Idx _ -> "idx" | Pop _ -> "pop"
+                                         | Div _ -> "div" | Comma _ -> "comma" | Guard _ -> "guard" | Free -> "free")
+                      else find r in
+        find p in
+      (match run p with Fails (_, s) -> Caseio.out_str "opclass" (opclass s) | _ -> Caseio.out_str "opclass" "none");
+      let distinct = List.sort_uniq compare (List.map (fun x -> str_of_coq x.entry ^ "|" ^ String.concat "_" (String.split_on_char ' ' (str_of_coq x.site))) p) in
+      Caseio.out_word "sites" distinct;
       (match run p with
        | Safe -> Caseio.out_str "verdict" "safe"; Caseio.out_str "entry" "-"; Caseio.out_str "site" "-"
        | Threw (e, s) ->
